@@ -1047,6 +1047,55 @@ impl Brc20ProgDatabase {
     }
 }
 
+#[cfg(brc20_prog_verif)]
+impl Brc20ProgDatabase {
+    /// Verification hook: make a live instance indistinguishable from a freshly created one.
+    pub fn verif_wipe(&mut self) {
+        self.db_account_memory.as_mut().expect(DB_MUTEX_ERROR).verif_wipe();
+        self.db_code.as_mut().expect(DB_MUTEX_ERROR).verif_wipe();
+        self.db_account.as_mut().expect(DB_MUTEX_ERROR).verif_wipe();
+        self.db_number_and_index_to_tx_hash.as_mut().expect(DB_MUTEX_ERROR).verif_wipe();
+        self.db_tx_receipt.as_mut().expect(DB_MUTEX_ERROR).verif_wipe();
+        self.db_tx.as_mut().expect(DB_MUTEX_ERROR).verif_wipe();
+        self.db_pending_txes.as_mut().expect(DB_MUTEX_ERROR).verif_wipe();
+        self.db_pending_txes_op_return_tx_ids.as_mut().expect(DB_MUTEX_ERROR).verif_wipe();
+        self.db_tx_trace.as_mut().expect(DB_MUTEX_ERROR).verif_wipe();
+        self.db_inscription_id_to_tx_hash.as_mut().expect(DB_MUTEX_ERROR).verif_wipe();
+        self.db_contract_address_to_inscription_id.as_mut().expect(DB_MUTEX_ERROR).verif_wipe();
+        self.db_block_hash_to_number.as_mut().expect(DB_MUTEX_ERROR).verif_wipe();
+        self.db_block_number_to_block.as_mut().expect(DB_MUTEX_ERROR).verif_wipe();
+        self.db_block_number_to_raw_block.as_mut().expect(DB_MUTEX_ERROR).verif_wipe();
+        self.db_block_number_to_hash.as_mut().expect(DB_MUTEX_ERROR).verif_wipe();
+        self.db_global_values.as_mut().expect(DB_MUTEX_ERROR).verif_wipe();
+        self.latest_block_number = None;
+    }
+
+    /// Verification hook: read-only dump of every table.
+    pub fn verif_dump(&self) -> (Vec<crate::verif::VerifTableDump>, Option<(u64, [u8; 32])>) {
+        (
+            vec![
+                self.db_account_memory.as_ref().expect(DB_MUTEX_ERROR).verif_dump("db_account_memory"),
+                self.db_code.as_ref().expect(DB_MUTEX_ERROR).verif_dump("db_code"),
+                self.db_account.as_ref().expect(DB_MUTEX_ERROR).verif_dump("db_account"),
+                self.db_number_and_index_to_tx_hash.as_ref().expect(DB_MUTEX_ERROR).verif_dump("db_number_and_index_to_tx_hash"),
+                self.db_tx_receipt.as_ref().expect(DB_MUTEX_ERROR).verif_dump("db_tx_receipt"),
+                self.db_tx.as_ref().expect(DB_MUTEX_ERROR).verif_dump("db_tx"),
+                self.db_pending_txes.as_ref().expect(DB_MUTEX_ERROR).verif_dump("db_pending_txes"),
+                self.db_pending_txes_op_return_tx_ids.as_ref().expect(DB_MUTEX_ERROR).verif_dump("db_pending_txes_op_return_tx_ids"),
+                self.db_tx_trace.as_ref().expect(DB_MUTEX_ERROR).verif_dump("db_tx_trace"),
+                self.db_inscription_id_to_tx_hash.as_ref().expect(DB_MUTEX_ERROR).verif_dump("db_inscription_id_to_tx_hash"),
+                self.db_contract_address_to_inscription_id.as_ref().expect(DB_MUTEX_ERROR).verif_dump("db_contract_address_to_inscription_id"),
+                self.db_block_hash_to_number.as_ref().expect(DB_MUTEX_ERROR).verif_dump("db_block_hash_to_number"),
+                self.db_block_number_to_block.as_ref().expect(DB_MUTEX_ERROR).verif_dump("db_block_number_to_block"),
+                self.db_block_number_to_raw_block.as_ref().expect(DB_MUTEX_ERROR).verif_dump("db_block_number_to_raw_block"),
+                self.db_block_number_to_hash.as_ref().expect(DB_MUTEX_ERROR).verif_dump("db_block_number_to_hash"),
+                self.db_global_values.as_ref().expect(DB_MUTEX_ERROR).verif_dump("db_global_values"),
+            ],
+            self.latest_block_number.map(|(n, h)| (n, h.0)),
+        )
+    }
+}
+
 #[derive(Debug)]
 pub struct DBError(Box<dyn Error>);
 
